@@ -208,6 +208,65 @@ theorem bulk_rate_invariant (θ0 : ℝ) (om df : List ℝ) (D : List (Fin N → 
     bulk (uniformGrid (N := N) θ0 om df) (fieldOf (rotField k D)) = bulk (uniformGrid (N := N) θ0 om df) (fieldOf D) :=
   bulk_rot θ0 om df D k
 
+/-- **bulk wind input** at fixed roughness is unchanged by a joint rotation -/
+theorem bulk_input_invariant (p : GenP ℝ) (θ0 : ℝ) (om df : List ℝ) (kin : Kin ℝ) (rows : List (Fin N → ℝ))
+    (w : Wind ℝ) (z0 : ℝ) (k : Fin N) :
+    bulk (uniformGrid (N := N) θ0 om df) (st4Input rfloor p (uniformGrid (N := N) θ0 om df) kin (fieldOf (rotField k rows)) (turnWind k w) z0)
+      = bulk (uniformGrid (N := N) θ0 om df) (st4Input rfloor p (uniformGrid (N := N) θ0 om df) kin (fieldOf rows) w z0) := by
+  obtain ⟨S, hS, hS'⟩ := st4Input_turn p θ0 om df kin rows w z0 k
+  rw [hS, hS', bulk_rot]
+
+/-- **roughness as the library computes it** (zero wind gives NaN, a failed balance evaluation is
+passed to the solver as `nan`) is unchanged -/
+theorem roughness_of_invariant (nan : ℝ) (p : GenP ℝ) (θ0 : ℝ) (om df : List ℝ) (kin : Kin ℝ) (rows : List (Fin N → ℝ))
+    (w : Wind ℝ) (guess : ℝ) (k : Fin N) :
+    roughnessOf nan rfloor p (uniformGrid (N := N) θ0 om df) kin (fieldOf (rotField k rows)) (turnWind k w) guess
+      = roughnessOf nan rfloor p (uniformGrid (N := N) θ0 om df) kin (fieldOf rows) w guess :=
+  roughnessOf_rot nan p θ0 om df kin rows w guess k
+
+/-- **wind inversion**: the balance function `u10 ↦ bulk input − target − dE/dt|active` (with the
+roughness solved anew at every `u10`) is the same function after rotating spectrum, rate of change
+and wind direction together … -/
+theorem u10_balance_invariant (nan : ℝ) (p : GenP ℝ) (θ0 : ℝ) (om df : List ℝ) (kin : Kin ℝ) (rows dEdt : List (Fin N → ℝ))
+    (dir target : ℝ) (k : Fin N) :
+    u10Balance nan rfloor p (uniformGrid (N := N) θ0 om df) kin (fieldOf (rotField k rows)) (dir + (k : ℕ) * dθ N) target
+        (fieldOf (rotField k dEdt))
+      = u10Balance nan rfloor p (uniformGrid (N := N) θ0 om df) kin (fieldOf rows) dir target (fieldOf dEdt) :=
+  u10Balance_rot nan p θ0 om df kin rows dEdt dir target k
+
+/-- … so the estimated wind speed (or its failure) is unchanged and the reported direction is the
+guess direction, which moves by the rotation -/
+theorem u10_estimate_invariant (nan : ℝ) (p : GenP ℝ) (θ0 : ℝ) (om df : List ℝ) (kin : Kin ℝ) (rows dEdt : List (Fin N → ℝ))
+    (dir target bulkRate guess : ℝ) (k : Fin N) :
+    u10FromBulkRate (u10Balance nan rfloor p (uniformGrid (N := N) θ0 om df) kin (fieldOf (rotField k rows))
+        (dir + (k : ℕ) * dθ N) target (fieldOf (rotField k dEdt))) bulkRate guess (dir + (k : ℕ) * dθ N)
+      = ((u10FromBulkRate (u10Balance nan rfloor p (uniformGrid (N := N) θ0 om df) kin (fieldOf rows) dir target (fieldOf dEdt))
+          bulkRate guess dir).1, dir + (k : ℕ) * dθ N) :=
+  u10Estimate_rot nan p θ0 om df kin rows dEdt dir target bulkRate guess k
+
+/-- **dissipation-weighted wave direction**: the wavenumber vector rotates with the field, so its
+direction moves by the rotation angle (as an angle modulo a full turn) and the bulk rate is unchanged -/
+theorem dissipation_vector_rotates (θ0 : ℝ) (om df : List ℝ) (kin : Kin ℝ) (D : List (Fin N → ℝ)) (k : Fin N) :
+    IsRot ((k : ℕ) * dθ N) (dissipationVector (uniformGrid (N := N) θ0 om df) kin (fieldOf D))
+      (dissipationVector (uniformGrid (N := N) θ0 om df) kin (fieldOf (rotField k D))) :=
+  dissipationVector_rot θ0 om df kin D k
+
+theorem dissipation_direction_shifts (θ0 : ℝ) (om df : List ℝ) (kin : Kin ℝ) (D : List (Fin N → ℝ)) (k : Fin N)
+    (h : (dissipationVector (uniformGrid (N := N) θ0 om df) kin (fieldOf D)).1 ≠ 0 ∨
+         (dissipationVector (uniformGrid (N := N) θ0 om df) kin (fieldOf D)).2 ≠ 0) :
+    dirAngle (dissipationVector (uniformGrid (N := N) θ0 om df) kin (fieldOf (rotField k D))).1
+        (dissipationVector (uniformGrid (N := N) θ0 om df) kin (fieldOf (rotField k D))).2
+      = dirAngle (dissipationVector (uniformGrid (N := N) θ0 om df) kin (fieldOf D)).1
+          (dissipationVector (uniformGrid (N := N) θ0 om df) kin (fieldOf D)).2
+        + (((k : ℕ) * dθ N * Real.pi / 180 : ℝ) : Real.Angle) :=
+  (dissipationVector_rot θ0 om df kin D k).dirAngle h
+
+/-- the hypothesis of `dissipation_direction_shifts` is met: one bin, one frequency, negative rate -/
+example : (dissipationVector (uniformGrid (N := 1) 0 [1] [1]) { k := [1], cg := [1], c := [1] } (fieldOf (N := 1) [fun _ => (-1 : ℝ)])).1 ≠ 0 ∨
+    (dissipationVector (uniformGrid (N := 1) 0 [1] [1]) { k := [1], cg := [1], c := [1] } (fieldOf (N := 1) [fun _ => (-1 : ℝ)])).2 ≠ 0 := by
+  left
+  simp [dissipationVector, uniformGrid, fieldOf, lsum, theta, deg2rad, dθ, Osu.Transc.cos]
+
 /-- the hypotheses-free statements above are about a non-degenerate rotation: a quarter turn on four
 bins moves the energy of bin 0 to bin 1 -/
 example : rotE (N := 4) 1 (fun j => if j = 0 then 1 else 0) 1 = 1 := by simp [rotE]
